@@ -26,7 +26,11 @@ impl<T: CoordNum> LineString<T> {
     /// twin of `LineString::lines()` (validated by K harness c19_k_linestring)
     #[verifier::external_body]
     pub fn lines(&self) -> (r: Vec<Line<T>>) ensures r@ == line_seq(self.0@) { unimplemented!() }
+    /// twin of `LineString::rev_lines()`: the segments from the last to the first, each reversed
+    #[verifier::external_body]
+    pub fn rev_lines(&self) -> (r: Vec<Line<T>>) ensures r@ == line_seq(rev_seq(self.0@)) { unimplemented!() }
 }
+pub open spec fn rev_seq<T: CoordNum>(s: Seq<Coord<T>>) -> Seq<Coord<T>> { Seq::new(s.len(), |i: int| s[s.len() - 1 - i]) }
 
 // ---- the abstract metric space ---------------------------------------------------------------
 pub uninterp spec fn m_len<F: CoordFloat>(a: Coord<F>, b: Coord<F>) -> int;
@@ -44,9 +48,8 @@ pub trait InterpolatePoint<F: CoordFloat> {
 }
 
 /// the arc-length walk: position at (remaining) distance d along the segments k.. of the line string
-/// None: the distance reaches past the last segment (the code then answers with the last vertex through
-/// `Option::map` and a closure without a specification, which Verus cannot see through: that case and the
-/// non-positive-distance case are decided by K harness c15_k_linestring_interpolation instead)
+/// None: the distance reaches past the last segment (the code then answers with the last vertex; its `Option::map`
+/// closures get their contract in place, X10)
 pub open spec fn walk<F: CoordFloat>(s: Seq<Coord<F>>, k: int, d: int) -> Option<Point<F>>
     decreases s.len() - k
 {
@@ -99,9 +102,11 @@ impl<F: CoordFloat> InterpolatableLine<F> for Line<F> {
 pub trait InterpolatableLineString<F: CoordFloat> {
     type Output;
     fn point_at_distance_from_start<MetricSpace: InterpolatePoint<F> + Length<F>>(&self, metric_space: &MetricSpace, distance: F) -> Self::Output;
+    fn point_at_distance_from_end<MetricSpace: InterpolatePoint<F> + Length<F>>(&self, metric_space: &MetricSpace, distance: F) -> Self::Output;
 }
 impl<F: CoordFloat> InterpolatableLineString<F> for LineString<F> {
     type Output = Option<Point<F>>;
+#[verifier::loop_isolation(false)]   // the loop sees what the code before it established (e.g. distance > 0)
 //@fn geo/src/algorithm/line_measures/interpolate_line.rs | impl<F: CoordFloat> InterpolatableLine<F> for LineString<F> | point_at_distance_from_start | id=C15.V.linestring_distance_from_start
 //@ret r
 //@spec
@@ -110,6 +115,11 @@ impl<F: CoordFloat> InterpolatableLineString<F> for LineString<F> {
             (r is None) == (self.0@.len() == 0),
             // a positive distance that ends inside some segment: the arc-length walk from segment 0
             distance.val() > 0 && walk(self.0@, 0, distance.val()) is Some ==> r == walk(self.0@, 0, distance.val()),
+            // clamped to the ends: a non-positive distance gives the FIRST vertex itself, a distance past the end the LAST
+            distance.val() <= 0 && self.0@.len() > 0 ==> r == Some(Point(self.0@[0])),
+            distance.val() > 0 && walk(self.0@, 0, distance.val()) is None && self.0@.len() > 0 ==> r == Some(Point(self.0@.last())),
+//@closure * `|coord| Point(*coord)` | coord: &Coord<F> | pp: Point<F>
+            ensures pp == Point(*coord)
 //@entry
         proof { F::ax_obeys(); F::ax_order(); F::ax_ring(); }
 //@loop 1 it
@@ -118,9 +128,31 @@ impl<F: CoordFloat> InterpolatableLineString<F> for LineString<F> {
                 forall|a: F, b: F| #![trigger a.partial_cmp_spec(&b)] a.partial_cmp_spec(&b) == Some(int_cmp(a.val(), b.val())),
                 forall|a: F, b: F| #![trigger a.sub_spec(b)] #![trigger a.sub_req(b)] a.sub_req(b) && a.sub_spec(b).val() == a.val() - b.val(),
                 it.snapshot@.remaining() == line_seq(self.0@),
-                distance.val() > 0,
+                // (stated conditionally, so that the invariant does not depend on HOW non-positive distances are dealt with)
                 // what remains to be walked from the current segment on gives the same point
-                walk(self.0@, it.index@, distance_remaining.val()) == walk(self.0@, 0, distance.val()),
+                distance.val() > 0 ==> walk(self.0@, it.index@, distance_remaining.val()) == walk(self.0@, 0, distance.val()),
+//@end
+#[verifier::loop_isolation(false)]   // the loop sees what the code before it established (e.g. distance > 0)
+//@fn geo/src/algorithm/line_measures/interpolate_line.rs | impl<F: CoordFloat> InterpolatableLine<F> for LineString<F> | point_at_distance_from_end | id=C15.V.linestring_distance_from_end
+//@ret r
+//@spec
+        ensures
+            // the same walk over the reversed line string
+            (r is None) == (self.0@.len() == 0),
+            distance.val() > 0 && walk(rev_seq(self.0@), 0, distance.val()) is Some ==> r == walk(rev_seq(self.0@), 0, distance.val()),
+            distance.val() <= 0 && self.0@.len() > 0 ==> r == Some(Point(self.0@.last())),
+            distance.val() > 0 && walk(rev_seq(self.0@), 0, distance.val()) is None && self.0@.len() > 0 ==> r == Some(Point(self.0@[0])),
+//@closure * `|coord| Point(*coord)` | coord: &Coord<F> | pp: Point<F>
+            ensures pp == Point(*coord)
+//@entry
+        proof { F::ax_obeys(); F::ax_order(); F::ax_ring(); }
+//@loop 1 it
+            invariant
+                F::obeys_partial_cmp_spec(), F::obeys_sub_spec(),
+                forall|a: F, b: F| #![trigger a.partial_cmp_spec(&b)] a.partial_cmp_spec(&b) == Some(int_cmp(a.val(), b.val())),
+                forall|a: F, b: F| #![trigger a.sub_spec(b)] #![trigger a.sub_req(b)] a.sub_req(b) && a.sub_spec(b).val() == a.val() - b.val(),
+                it.snapshot@.remaining() == line_seq(rev_seq(self.0@)),
+                distance.val() > 0 ==> walk(rev_seq(self.0@), it.index@, distance_remaining.val()) == walk(rev_seq(self.0@), 0, distance.val()),
 //@end
 }
 
